@@ -139,9 +139,7 @@ def api_consistency_table(ctx, rule, deep=False):
 
 
 PAIR_POOL = ['p', '.x', 'li', '#p2', 'div > p', ':checked', 'p:not(.x)', 'li:nth-child(odd)', ':has(> a)', '[type]', ':lang(fr)', 'x|li', ':required',
-             ':first-child', 'span, b', ':root', ':empty', ':link', 'html|b']
-# :dir() and :defined are left out of the pool: a list that contains one of them is HTML-only as a whole on this tree - the two
-# recorded findings of C05-R1 (`a, a:dir(ltr)`, `a, a:defined`), which that rule identifies by input
+             ':first-child', 'span, b', ':root', ':empty', ':link', 'html|b', ':dir(ltr)', 'p:defined', 'x|li:dir(ltr)']
 
 
 NEST_X = [':empty', ':root', 'p', ':first-child', ':checked', ':scope', '.x', ':link', ':lang(fr)', ':required', '[type]']
@@ -383,7 +381,6 @@ STATE_TREE = [('html', {'_label': 'root'}, [
 STATE_POOL = [':indeterminate', ':default', ':checked', ':placeholder-shown', ':-soup-contains(note)', ':enabled', ':disabled', ':required', ':optional', ':read-write',
               ':in-range', ':out-of-range', ':link', ':empty', 'input', 'textarea', '#r2', '#r3', ':not([checked])', ':lang(es)', ':lang(pt)', 'form > :first-child',
               'input:not([checked])', '[name=g]', ':root', ':dir(ltr)']
-# :dir() / :defined inside a list make the whole list HTML-only (the recorded C05-R1 findings); on these HTML trees that changes nothing
 
 
 def state_algebra_table(ctx, rule, deep=False):
@@ -990,17 +987,17 @@ def _rows_table(ctx, rule, title, cases, where, why):
             kw = ((('namespaces', ns),) if ns is not None else ()) + ((('custom', custom),) if custom is not None else ())
             reqs.append((i, 'select', s, None, kw))
             meta.append((i, what, s, want))
-    bad = None
+    bad = []
     for (i, what, s, want), got in zip(meta, batch_api(ctx, docs, reqs)):
         order = docs[i][1]
         g = [label(order[j]).strip('<>') for j in got[1]] if got[0] == 'ok' else f'raises {got[1]}'
         rule.instance({'document': what, 'selector': s, 'selected': g, 'expected': want}, key=f'{title}|{what}|{s}', sample_cap=8)
-        if g != want and bad is None:
-            bad = (what, s, g, want)
+        if g != want:
+            bad.append((what, s, g, want))
     rule.instance({'api_calls': len(reqs)}, key=f'{title}-calls')
-    rule.obligation(bad is None)
-    if bad is not None:
-        what, s, g, want = bad
+    rule.obligation(not bad)
+    # every failing row is reported (a recorded finding in one row must not hide a new one in another); at most 12
+    for what, s, g, want in bad[:12]:
         rule.violation(f'{title} `{s}` ({what})', where, f'{s!r} on the document "{what}" selects {g}; {why} gives {want}')
 
 
@@ -1092,7 +1089,8 @@ def namespace_table(ctx, rule):
     XH = 'http://www.w3.org/1999/xhtml'
     T4 = [('html', {'_label': 'root'}, [('body', {'_label': 'body'}, [('e', {'_label': 'hx'}, []), ('e', {'_ns': None, '_label': 'bare'}, [('e', {'_ns': None, '_label': 'bare2'}, [])]),
                                                                        ('e', {'_ns': '', '_label': 'empty'}, [])])])]
-    rows4 = [('|e', ['bare', 'bare2', 'empty']), ('h|e', ['hx']), ('e', ['hx', 'bare', 'bare2', 'empty']), ('*|e', ['hx', 'bare', 'bare2', 'empty']), ('h|*', ['root', 'body', 'hx']),
+    # (the last two rows: a prefixed type selector next to :dir() / :defined - see the recorded findings)
+    rows4 = [('h|e:dir(ltr)', ['hx']), ('html|e:defined', []), ('|e', ['bare', 'bare2', 'empty']), ('h|e', ['hx']), ('e', ['hx', 'bare', 'bare2', 'empty']), ('*|e', ['hx', 'bare', 'bare2', 'empty']), ('h|*', ['root', 'body', 'hx']),
              ('|*', ['bare', 'bare2', 'empty'])]
     rows5 = [('e', ['hx']), ('*|e', ['hx', 'bare', 'bare2', 'empty']), ('|e', ['bare', 'bare2', 'empty'])]
     _rows_table(ctx, rule, 'namespace', [('mixed namespaces, map {p: urn:x, q: urn:y}', 'xml', T, m1, rows1),
